@@ -105,10 +105,14 @@ Definition reg_node (ni : N) (skip : bool) (n : option N) : option N :=
 
 (* ensureCheckTxn: a service check needs its service (ErrMissingService) and gets the
    service's name and tags copied in *)
+(* "Use the default check status if none was provided": "" becomes critical (status codes:
+   0 = "", 1 = passing, 2 = warning, 3 = critical) *)
+Definition status_default (s : N) : N := if N.eqb s 0 then 3%N else s.
+
 Definition stamp (svcs : gmap N svc) (c : chk) : option chk :=
-  if N.eqb (ck_sid c) 0 then Some c
+  if N.eqb (ck_sid c) 0 then Some (Chk (ck_sid c) (status_default (ck_status c)) (ck_out c) (ck_rest c) (ck_sname c) (ck_stags c))
   else match svcs !! ck_sid c with
-       | Some s => Some (Chk (ck_sid c) (ck_status c) (ck_out c) (ck_rest c) (sv_name s) (sv_tags s))
+       | Some s => Some (Chk (ck_sid c) (status_default (ck_status c)) (ck_out c) (ck_rest c) (sv_name s) (sv_tags s))
        | None => None
        end.
 
@@ -408,6 +412,15 @@ Definition add_check (id : N) (d : chk) (tok : N) (loc : bool) (st : lstate) : l
        | None => (LS (l_node st) (l_svcs st) (<[id := CE (Some d) tok false false loc]> (l_chks st)), ROk)
        end.
 
+(* agent.addCheckLocked refuses a check for a service that State.Service does not return
+   (absent, or marked deleted) before it reaches State.AddCheck *)
+Definition add_check_agent (id : N) (d : chk) (tok : N) (loc : bool) (st : lstate) : lstate * res :=
+  if N.eqb (ck_sid d) 0 then add_check id d tok loc st
+  else match l_svcs st !! ck_sid d with
+       | Some s => if se_del s then (st, RErr) else add_check id d tok loc st
+       | None => (st, RErr)
+       end.
+
 Fixpoint add_checks (cs : list (N * chk)) (tok : N) (loc : bool) (st : lstate) : lstate * res :=
   match cs with
   | [] => (st, ROk)
@@ -489,7 +502,8 @@ Inductive step :=
 | SAddSvc (id : N) (d : svc) (tok : N) (loc : bool) (cs : list (N * chk))
 | SRemoveSvc (id : N)                         (* the agent's way: with its live checks *)
 | SRemoveSvcRaw (id : N) (cids : list N)
-| SAddChk (id : N) (d : chk) (tok : N) (loc : bool)
+| SAddChk (id : N) (d : chk) (tok : N) (loc : bool)          (* State.AddCheck *)
+| SAddChkAgent (id : N) (d : chk) (tok : N) (loc : bool)     (* through the agent's guard *)
 | SRemoveChk (id : N)
 | SUpdChk (id status out : N)
 | SUpdateSyncState
@@ -511,6 +525,7 @@ Definition do_step (g : cfg) (s : step) (st : lstate) (c : cat) (fs : list outco
   | SRemoveSvc id => let '(st', r) := remove_service_agent id st in (st', c, fs, [], r)
   | SRemoveSvcRaw id cids => let '(st', r) := remove_service_with_checks id cids st in (st', c, fs, [], r)
   | SAddChk id d tok loc => let '(st', r) := add_check id d tok loc st in (st', c, fs, [], r)
+  | SAddChkAgent id d tok loc => let '(st', r) := add_check_agent id d tok loc st in (st', c, fs, [], r)
   | SRemoveChk id => let '(st', r) := remove_check id st in (st', c, fs, [], r)
   | SUpdChk id status out => (update_check id status out st, c, fs, [], ROk)
   | SUpdateSyncState => let '(st', fs', log, failed) := update_sync_state g st c fs in (st', c, fs', log, res_of_err failed)
